@@ -285,7 +285,7 @@ def finalize(ctx, col):
     shrink_deadline = time.time() + (90 if ctx.tier == "quick" else 600)
     for i, (sig, b) in enumerate(new):
         case = b["case"]
-        if ctx.shrinker is not None and i < 8 and time.time() < shrink_deadline:
+        if ctx.shrinker is not None and i < 8 and time.time() < shrink_deadline and not os.environ.get("VERIF_NO_SHRINK"):
             try:
                 small = ctx.shrinker(sig, case)
                 if small is not None:
